@@ -87,3 +87,46 @@ PBT_PROPERTY(pmerge_scale) {
         else run_int_u(src, c);
     }
 }
+
+// ITERATOR / TYPE classes (a separate target: the byte -> case mapping of `pmerge` stays valid). The statement
+// quantifies over sequences given by any random-access iterators: inputs held in std::deque (several 512-byte blocks,
+// begin not at a block start) or read through std::reverse_iterator over a vector stored back to front; output through
+// std::deque iterators / std::reverse_iterator (guard cells) besides the counting iterator; element type owning a
+// std::string besides the plain 16-byte record; comparator owning a std::string, a std::vector and a std::function.
+// Same configuration selectors as `pmerge` (kind and type drawn first), same shape generator, same oracle.
+PBT_PROPERTY(pmerge_iters) {
+    using namespace c07;
+    reset_globals();
+    Cfg c;
+    const int kind = (int)src.weighted({4, 3, 3, 3}); // see ITK_LABEL
+    const size_t ty = src.weighted({1, 1});          // 16-byte record / record owning a std::string
+    const bool stable = !src.boolean();
+    c.entry = (int)src.weighted({5, 2, 3});
+    c.sampling = src.boolean();
+    switch (src.weighted({6, 2, 4, 4, 6, 4, 3})) {
+    case 0: c.threads = 2; break;
+    case 1: c.threads = 1; break;
+    case 2: c.threads = 3; break;
+    case 3: c.threads = 4; break;
+    case 4: c.threads = (int)src.range(5, 8); break;
+    case 5: c.threads = (int)src.range(9, 16); break;
+    default: c.threads = (int)src.range(17, 32); break;
+    }
+    c.alg = (int)src.range(0, 3);
+    static const int OS[4] = {10, 1, 2, 3};
+    c.oversampling = OS[src.range(0, 3)];
+    c.gate = (int)src.weighted({20, 4, 2, 3}); // more of the default gating (>= 1000 elements: sequences of several deque blocks)
+    c.mink = c.minn = 0;
+    if (c.gate == 3) {
+        c.mink = (int)src.range(1, 5);
+        c.minn = (int)src.range(0, 40);
+    }
+    c.desc = src.boolean();
+    if (ty == 0) {
+        if (stable) run_it_rec_s(src, c, kind);
+        else run_it_rec_u(src, c, kind);
+    } else {
+        if (stable) run_it_recs_s(src, c, kind);
+        else run_it_recs_u(src, c, kind);
+    }
+}
